@@ -67,11 +67,13 @@ package checkgroup
 //@   ensures result != nil && fresh(result) && !gerr(result) && !gmem(result)
 
 //@ ghostfield gadds int
+//@ ghostfield gunk bool
 //@ func Checkgroup.Add
 //@   trusted
 //@   requires check != nil
-//@   modifies gerr(recv), gmem(recv), gadds(recv)
+//@   modifies gerr(recv), gmem(recv), gadds(recv), gunk(recv)
 //@   ensures gadds(recv) == old(gadds(recv)) + 1
+//@   ensures gunk(recv) == (old(gunk(recv)) || closureof(check, UnknownMemberFunc))
 //@   ensures gerr(recv) == (old(gerr(recv)) || closureof(check, ErrorFunc$1))
 //@   ensures gmem(recv) == (old(gmem(recv)) || !(closureof(check, ErrorFunc$1) || closureof(check, NotMemberFunc) || closureof(check, UnknownMemberFunc)))
 
